@@ -35,7 +35,8 @@ Definition c4_eqb (a b : c4) : bool :=
 Definition c4_max (a b : c4) : c4 := c4_map2 N.max a b.
 
 (* Which repairs are applied.  Committed in /repo: fix_counters (7e92d8e), fix_stop (e0693a6), fix_active (d70a5ae),
-   fix_sent (9b87063), fix_l2stop (d95fed1), fix_prune (7faf7f9).  Still open (known finding): fix_order. *)
+   fix_sent (9b87063), fix_l2stop (d95fed1), fix_prune (7faf7f9).  Not in /repo: fix_order (known finding, no patch),
+   fix_ghost (known finding, fixes/C09_no_ghost_checkpoint.patch). *)
 Record variant := Variant {
   fix_counters : bool;   (* applyVPPCounters also treats "cumulative < last reported" as a regress *)
   fix_stop : bool;       (* handleSessionRelease sends Stop only when it removed an acctCache entry *)
@@ -44,15 +45,17 @@ Record variant := Variant {
                             used as the floor of the next report *)
   fix_order : bool;      (* the provider calls of one session reach the provider in the order they were issued *)
   fix_l2stop : bool;     (* the Stop of an l2gw session reads the l2gw stats segment like its Interims *)
-  fix_prune : bool       (* pruning an orphaned accounting entry closes it at the backend with a Stop *)
+  fix_prune : bool;      (* pruning an orphaned accounting entry closes it at the backend with a Stop *)
+  fix_ghost : bool       (* a late Accounting-Response does not re-create the checkpoint of a session released meanwhile *)
 }.
 (* V s o l: the first three repairs plus any subset of the later three (the proofs are uniform in s, o, l) *)
-Definition V (s o l p : bool) : variant := Variant true true true s o l p.
-Definition head : variant := V true false true true.    (* /repo HEAD *)
+Definition V (s o l p : bool) : variant := Variant true true true s o l p true.
+Definition Vg (s o l p : bool) : variant := Variant true true true s o l p false.   (* without fix_ghost *)
+Definition head : variant := Vg true false true true.   (* /repo HEAD *)
 Definition before_7faf7f9 : variant := V true false true false.   (* HEAD before the stop-on-prune fix *)
 Definition repaired : variant := V true true true true.
 Definition before_9b87063 : variant := V false false false false.   (* HEAD before the sent-floor and l2gw-stop fixes *)
-Definition defective : variant := Variant false false false false false false false.   (* the code as first found *)
+Definition defective : variant := Variant false false false false false false false false.   (* the code as first found *)
 
 (* AccountingSession: the fields the property depends on *)
 Record sess := Sess {
@@ -138,9 +141,11 @@ Definition report_wraps (v : variant) (g tick : bool) (e : sess) (sn : snaps) : 
 Record sst := Sst {
   inb : bool;               (* the id is in its interim bucket *)
   cache : option sess;      (* acctCache[id] *)
-  db : option sess          (* opdb checkpoint (pending flag unused) *)
+  db : option sess;         (* opdb checkpoint (pending flag unused) *)
+  orph : option sess        (* the AccountingSession object detached by the last release: a sendAccountingUpdate goroutine
+                               whose Accounting-Response is still outstanding keeps a pointer to it *)
 }.
-Definition sst0 : sst := Sst false None None.
+Definition sst0 : sst := Sst false None None None.
 
 (* notifications addressed to one session *)
 Inductive sev :=
@@ -150,6 +155,9 @@ Inductive sev :=
 | ETick (sn : snaps) (ok : bool)  (* the session's bucket fires; ok = Accounting-Response received *)
 | EAck                            (* the Accounting-Response of an Interim sent earlier ([ETick _ false] = "no response
                                      yet") arrives late: advanceLastReported to the value sent, checkpoint *)
+| ELate (ok : bool)               (* the Accounting-Response (ok / failed) of an Interim whose session was RELEASED while it
+                                     was outstanding arrives: sendAccountingUpdate finishes on the detached object and
+                                     calls checkpointAcctSession *)
 | ERestart                        (* process restart: new component, loadAcctSessions *)
 | EPrune (past : bool).           (* pruneOrphanedAcctEntries; past = now is after the confirm deadline *)
 
@@ -167,19 +175,19 @@ Definition lstep (v : variant) (g : bool) (s : sst) (ev : sev) : sst * list out 
       if inb s then (s, [])                                   (* alreadyPresent *)
       else match cache s with
            | Some e =>
-               if fix_active v then (Sst true (Some (confirm e i h)) (db s), [])
-               else (Sst true (Some (fresh i h)) (Some (fresh i h)), [Start])
-           | None => (Sst true (Some (fresh i h)) (Some (fresh i h)), [Start])
+               if fix_active v then (Sst true (Some (confirm e i h)) (db s) (orph s), [])
+               else (Sst true (Some (fresh i h)) (Some (fresh i h)) (orph s), [Start])
+           | None => (Sst true (Some (fresh i h)) (Some (fresh i h)) (orph s), [Start])
            end
   | ERestored i h =>
       match cache s with
-      | Some e => (Sst true (Some (confirm e i h)) (db s), [])
-      | None => (Sst true (Some (fresh i h)) (db s), [])       (* seeded, not checkpointed *)
+      | Some e => (Sst true (Some (confirm e i h)) (db s) (orph s), [])
+      | None => (Sst true (Some (fresh i h)) (db s) (orph s), [])       (* seeded, not checkpointed *)
       end
   | EReleased sn =>
       match cache s with
-      | Some e => (sst0, [Stop (snd (report v g false e sn))])
-      | None => (sst0, if fix_stop v then [] else [Stop c4z])
+      | Some e => (Sst false None None (Some (fst (report v g false e sn))), [Stop (snd (report v g false e sn))])
+      | None => (Sst false None None (orph s), if fix_stop v then [] else [Stop c4z])
       end
   | ETick sn ok =>
       if inb s then
@@ -190,15 +198,23 @@ Definition lstep (v : variant) (g : bool) (s : sst) (ev : sev) : sst * list out 
             let e' := if fix_sent v then Sess (ifx e0) (hfx e0) (last e0) c (base e0) (prior e0) (pending e0) else e0 in
             if ok then
               let e'' := Sess (ifx e') (hfx e') c (hw e') (base e') (prior e') (pending e') in   (* advanceLastReported *)
-              (Sst true (Some e'') (Some e''), [Interim c true])              (* + checkpoint *)
-            else (Sst true (Some e') (if fix_sent v then Some e' else db s), [Interim c false])
+              (Sst true (Some e'') (Some e'') (orph s), [Interim c true])              (* + checkpoint *)
+            else (Sst true (Some e') (if fix_sent v then Some e' else db s) (orph s), [Interim c false])
         | None => (s, [])
         end
       else (s, [])
   | EAck =>
       match cache s with
       | Some e => let e'' := Sess (ifx e) (hfx e) (floor v e) (hw e) (base e) (prior e) (pending e) in
-                  (Sst (inb s) (Some e'') (Some e''), [])
+                  (Sst (inb s) (Some e'') (Some e'') (orph s), [])
+      | None => (s, [])
+      end
+  | ELate ok =>
+      match orph s with
+      | Some o =>
+          if fix_ghost v then (Sst (inb s) (cache s) (db s) None, [])     (* released: no checkpoint *)
+          else let o' := if ok then Sess (ifx o) (hfx o) (floor v o) (hw o) (base o) (prior o) (pending o) else o in
+               (Sst (inb s) (cache s) (Some o') None, [])                 (* the deleted checkpoint is written again *)
       | None => (s, [])
       end
   | ERestart =>
@@ -206,11 +222,11 @@ Definition lstep (v : variant) (g : bool) (s : sst) (ev : sev) : sst * list out 
            (match db s with
             | Some d => Some (Sess (ifx d) 0 (last d) (hw d) (base d) (prior d) true)   (* the handoff index is not in the checkpoint *)
             | None => None end)
-           (db s), [])
+           (db s) None, [])   (* the old process and its goroutines are gone *)
   | EPrune past =>
       match cache s with
       | Some e => if pending e && past
-                  then (Sst (inb s) None None, if fix_prune v then [Stop (floor v e)] else [])
+                  then (Sst (inb s) None None (orph s), if fix_prune v then [Stop (floor v e)] else [])
                   else (s, [])
       | None => (s, [])
       end
@@ -248,6 +264,7 @@ Inductive gev :=
 | GReleased (j : nat) (sn : snaps)
 | GTick (b : N) (fails : list nat) (sn : snaps)     (* ProcessAccountingBucket b *)
 | GAck (j : nat)                                     (* late Accounting-Response for session j's Interim *)
+| GLate (j : nat) (ok : bool)                        (* late response for session j's detached object *)
 | GRestart
 | GPrune (past : bool).
 
@@ -264,6 +281,7 @@ Definition project (bk : list N) (j : nat) (g : gev) : option sev :=
       | None => None
       end
   | GAck k => if Nat.eqb j k then Some EAck else None
+  | GLate k ok => if Nat.eqb j k then Some (ELate ok) else None
   | GRestart => Some ERestart
   | GPrune past => Some (EPrune past)
   end.
@@ -330,6 +348,7 @@ Definition mon_step (fs fp : bool) (m : mst) (ev : sev) (o : list out) : option 
               else Some m
       | _ => None
       end
+  | ELate _ => match o with [] => Some m | _ => None end
   | ERestart =>
       match o with
       | [] => if m_open m && m_pers m then Some (Mst true true true (m_ack m) (m_sent m)) else Some mst0
@@ -506,3 +525,7 @@ Fixpoint strictT (b : bstate) (t : list (sev * list out)) : bool :=
       let b1 := match ev, b with ERestored _ _, BClosed => BQuiet | _, _ => b end in
       match strict_calls b1 o with Some b2 => strictT b2 r | None => false end
   end.
+
+(* no Accounting-Response arrives for a session released while it was outstanding *)
+Definition no_late (evs : list sev) : bool :=
+  forallb (fun ev => match ev with ELate _ => false | _ => true end) evs.
